@@ -39,7 +39,7 @@ def replay(job):
             if conf[which] != "absent":
                 hp = os.path.join(proj.root, "%s_hook.sh" % which)
                 # an unstartable hook exists (config and option validation accept it) but cannot be executed: no executable bit / no interpreter
-                fakevcs.write_hook(hp, which, fdir, succeed=conf[which] == "ok", unstartable=(("noexec", "badinterp")[seed % 2] if conf[which] == "unstartable" else None))
+                fakevcs.write_hook(hp, which, fdir, succeed=conf[which] == "ok", unstartable=(("noexec", "badinterp")[seed % 2] if conf[which] == "unstartable" else None), how=seed // 2)
                 hooks[which] = "%s_hook.sh" % which
                 if conf["hooksrc"] == "config":
                     extra[key] = "%s_hook.sh" % which
